@@ -95,7 +95,7 @@ func Start(t *testing.T, pkg string) *Session {
 	if v, err := strconv.Atoi(os.Getenv("VERIF_C14_LIMIT_S")); err == nil && v > 0 {
 		limit = time.Duration(v) * time.Second
 	}
-	cmd := exec.Command("strace", "-f", "-s", strconv.Itoa(SmallLimit+64), "-xx", "-e", "trace="+Syscalls, "-o", trace,
+	cmd := exec.Command("strace", "-f", "-s", strconv.Itoa(SmallLimit+64), "-e", "trace="+Syscalls, "-o", trace,
 		exe, "-test.run", "^TestVerifC14$", "-test.count=1", "-test.timeout="+(limit-10*time.Second).String())
 	cmd.Env = append(os.Environ(), "VERIF_C14_CHILD=1", "VERIF_C14_ROOT="+root, "VERIF_C14_META="+meta)
 	cmd.SysProcAttr = &syscall.SysProcAttr{Setpgid: true}
